@@ -6,7 +6,8 @@
 
     The hypotheses speak about floating-point expressions only (the translated r3.Vector
     operations / float stages), never about control flow. The error constants of
-    triageSign, stableSign and triageSignDotProd are NOT part of the hypotheses: the
+    stableSign (and of triageSign / triageSignDotProd, whose hypotheses are now discharged in
+    C02_TriageDet.v / C02_RelErr.v) are NOT part of the hypotheses: the
     hypotheses are stated for fixed dyadic bounds ([K_TRIAGE], [K_STABLE], [K_DOT]) and the
     constants found in the generated code are compared with them by computation
     ([triage_const_ok], [stable_const_ok], [dot_const_ok]) — shrinking a constant in the
@@ -116,25 +117,8 @@ Proof.
   - apply FR_opp_by_compute. vm_compute. reflexivity.
 Qed.
 
-(** H-TRIAGE-DET: the float determinant of three unit vectors is within K_TRIAGE of the exact one *)
-Definition H_TRIAGE_DET : Prop := forall a b c, unit_pt a -> unit_pt b -> unit_pt c ->
-  ffinite (fdet a b c) = true /\ Rabs (FR (fdet a b c) - detR a b c) <= D2R K_TRIAGE.
-
-Theorem triage_sound : H_TRIAGE_DET -> forall a b c, unit_pt a -> unit_pt b -> unit_pt c ->
-  s2_triageSign a b c <> 0%Z -> s2_triageSign a b c = sgnR (detR a b c).
-Proof.
-  intros H a b c Ua Ub Uc. rewrite triage_is. unfold triage_with. cbv zeta.
-  destruct (H a b c Ua Ub Uc) as [Fd Ed].
-  destruct triage_const_ok as (FK & FKn & LK & EKn).
-  destruct (ffinite_rank _ Fd) as [Nd Rd]. destruct (ffinite_rank _ FK) as [NK RK].
-  destruct (ffinite_rank _ FKn) as [NKn RKn].
-  apply Rabs_le_inv in Ed.
-  destruct (PrimFloat.ltb maxDetErr (fdet a b c)) eqn:E1.
-  - apply ltb_true_R in E1. rewrite RK, Rd in E1. intros _. symmetry. apply sgnR_pos. lra.
-  - destruct (PrimFloat.ltb (fdet a b c) maxDetErrNeg) eqn:E2.
-    + apply ltb_true_R in E2. rewrite RKn, Rd, EKn in E2. intros _. symmetry. apply sgnR_neg. lra.
-    + intros H0. contradiction.
-Qed.
+(** H-TRIAGE-DET is discharged in Proofs/C02_TriageDet.v ([triage_sound_closed]); the constant
+    enters through [triage_const_ok] above. *)
 
 (** * stableSign *)
 Definition stable_core (a b c : s2_Point) : PrimFloat.float * PrimFloat.float :=
@@ -239,110 +223,6 @@ Proof.
     symmetry. apply sgnR_pos. lra.
   - apply ltb_false_iff in E2; [|reflexivity|assumption]. rewrite rank_zero, Rd in E2.
     rewrite Rabs_left1 in E1 by lra. symmetry. apply sgnR_neg. lra.
-Qed.
-
-(** * RobustSign = the exact stage on unit-length points *)
-Lemma peq_sym' p q : peq p q -> peq q p.
-Proof. unfold peq. intuition. Qed.
-Lemma eqb_sym p q : finite p -> finite q -> s2_Point_eqb p q = s2_Point_eqb q p.
-Proof.
-  intros Fp Fq. destruct (s2_Point_eqb p q) eqn:E1; destruct (s2_Point_eqb q p) eqn:E2; auto.
-  - apply eqb_iff in E1; auto. apply peq_sym' in E1. apply (eqb_iff q p) in E1; auto. congruence.
-  - apply eqb_iff in E2; auto. apply peq_sym' in E2. apply (eqb_iff p q) in E2; auto. congruence.
-Qed.
-
-Lemma identical2_det a b c : finite a -> finite b -> finite c -> identical2 a b c = true -> detR a b c = 0.
-Proof.
-  intros Fa Fb Fc H. unfold identical2 in H. apply orb_true_iff in H. destruct H as [H|H].
-  - apply orb_true_iff in H. destruct H as [H|H].
-    + apply eqb_iff in H; auto. now apply detR_peq12.
-    + apply eqb_iff in H; auto. rewrite <- detR_rot. now apply detR_peq12.
-  - apply eqb_iff in H; auto. rewrite <- detR_rot, <- detR_rot. now apply detR_peq12.
-Qed.
-
-Lemma identical2_false_distinct a b c : finite a -> finite b -> finite c ->
-  identical2 a b c = false -> distinct3 a b c.
-Proof.
-  intros Fa Fb Fc H. unfold identical2 in H. apply orb_false_iff in H. destruct H as [H Hca].
-  apply orb_false_iff in H. destruct H as [Hab Hbc]. repeat split; intro E.
-  - apply (eqb_iff a b) in E; auto. congruence.
-  - apply (eqb_iff b c) in E; auto. congruence.
-  - apply peq_sym' in E. apply (eqb_iff c a) in E; auto. congruence.
-Qed.
-
-Section Robust.
-  Hypothesis HT : H_TRIAGE_DET.
-  Hypothesis HS : H_STABLE_DET.
-  Variables a b c : s2_Point.
-  Hypothesis Ua : unit_pt a.
-  Hypothesis Ub : unit_pt b.
-  Hypothesis Uc : unit_pt c.
-
-  Theorem robust_sign_spec :
-    robust_sign a b c = if identical2 a b c then 0%Z else exact_sign a b c.
-  Proof.
-    destruct Ua as [Fa _], Ub as [Fb _], Uc as [Fc _].
-    unfold robust_sign. cbv zeta.
-    destruct (Z.eqb_spec (s2_triageSign a b c) 0) as [E|E].
-    - unfold expensive_sign. fold (identical2 a b c).
-      destruct (identical2 a b c) eqn:I; [reflexivity|]. cbv zeta.
-      destruct (Z.eqb_spec (s2_stableSign a b c) 0) as [E2|E2]; simpl; [reflexivity|].
-      pose proof (stable_sound HS a b c Ua Ub Uc E2) as Hs.
-      rewrite Hs. symmetry. apply exact_sign_det. intros D0. rewrite D0, sgnR_0 in Hs. contradiction.
-    - pose proof (triage_sound HT a b c Ua Ub Uc E) as Hs.
-      assert (D0 : detR a b c <> 0). { intros D0. rewrite D0, sgnR_0 in Hs. contradiction. }
-      destruct (identical2 a b c) eqn:I.
-      + exfalso. apply D0. now apply identical2_det.
-      + rewrite Hs. symmetry. now apply exact_sign_det.
-  Qed.
-
-  Theorem robust_sign_det : detR a b c <> 0 -> robust_sign a b c = sgnR (detR a b c).
-  Proof.
-    destruct Ua as [Fa _], Ub as [Fb _], Uc as [Fc _].
-    intros D0. rewrite robust_sign_spec. destruct (identical2 a b c) eqn:I.
-    - exfalso. apply D0. now apply identical2_det.
-    - now apply exact_sign_det.
-  Qed.
-End Robust.
-
-(** Indeterminate iff two arguments are identical: needs the triage hypothesis only *)
-Theorem robust_sign_zero_iff : H_TRIAGE_DET -> forall a b c, unit_pt a -> unit_pt b -> unit_pt c ->
-  (robust_sign a b c = 0%Z <-> identical2 a b c = true).
-Proof.
-  intros HT a b c Ua Ub Uc. unfold robust_sign. cbv zeta.
-  destruct (Z.eqb_spec (s2_triageSign a b c) 0) as [E|E].
-  - apply expensive_sign_zero_iff.
-  - split; [intros H; contradiction|]. intros I. exfalso.
-    pose proof (triage_sound HT a b c Ua Ub Uc E) as Hs.
-    rewrite (identical2_det a b c) in Hs; try apply Ua; try apply Ub; try apply Uc; auto.
-    rewrite sgnR_0 in Hs. contradiction.
-Qed.
-
-Lemma identical2_rot a b c : identical2 b c a = identical2 a b c.
-Proof. unfold identical2. destruct (s2_Point_eqb a b), (s2_Point_eqb b c), (s2_Point_eqb c a); reflexivity. Qed.
-Lemma identical2_rev a b c : finite a -> finite b -> finite c -> identical2 c b a = identical2 a b c.
-Proof.
-  intros Fa Fb Fc. unfold identical2.
-  rewrite (eqb_sym c b), (eqb_sym b a), (eqb_sym a c) by assumption.
-  destruct (s2_Point_eqb a b), (s2_Point_eqb b c), (s2_Point_eqb c a); reflexivity.
-Qed.
-
-Theorem robust_sign_rotate : H_TRIAGE_DET -> H_STABLE_DET -> forall a b c,
-  unit_pt a -> unit_pt b -> unit_pt c -> robust_sign b c a = robust_sign a b c.
-Proof.
-  intros HT HS a b c Ua Ub Uc. rewrite !robust_sign_spec by assumption.
-  rewrite identical2_rot. destruct (identical2 a b c) eqn:I; [reflexivity|].
-  destruct Ua as [Fa _], Ub as [Fb _], Uc as [Fc _].
-  apply (exact_sign_rotate a b c true); auto. now apply identical2_false_distinct.
-Qed.
-
-Theorem robust_sign_swap : H_TRIAGE_DET -> H_STABLE_DET -> forall a b c,
-  unit_pt a -> unit_pt b -> unit_pt c -> robust_sign c b a = (- robust_sign a b c)%Z.
-Proof.
-  intros HT HS a b c Ua Ub Uc. rewrite !robust_sign_spec by assumption.
-  destruct Ua as [Fa _], Ub as [Fb _], Uc as [Fc _].
-  rewrite identical2_rev by assumption. destruct (identical2 a b c) eqn:I; [reflexivity|].
-  apply (exact_sign_swap13 a b c true); auto. now apply identical2_false_distinct.
 Qed.
 
 (** * CompareDistances, CompareDistance, SignDotProd *)
